@@ -370,6 +370,28 @@ fn run_job(job: &Value, stdf: &Vec<(String, Vec<u8>)>) -> Value {
             }
         }
 
+        "asm_many" => {
+            // one template, many substitutions of the placeholder "@@": glue for
+            // sweeps of one-line programs (the list of observations is the result)
+            let template = job.get("template").and_then(|v| v.as_str()).unwrap_or("").to_string();
+            let opts = parse_opts(job);
+            let mut res = Vec::new();
+            for value in str_list(job.get("values")) {
+                let src = template.replace("@@", &value);
+                let mut fs2 = LogFs::new();
+                fs2.add("main.asm", src.into_bytes());
+                let mut rep2 = diagn::Report::new();
+                let assembly = asm::assemble(&mut rep2, &opts, &mut fs2, &["main.asm"]);
+                match assembly.output {
+                    Some(ref out) if !assembly.error => {
+                        res.push(json!({"ok": true, "bits": bits_string(out)}));
+                    }
+                    _ => res.push(json!({"ok": false, "bits": "", "nerrors": rep2.len()})),
+                }
+            }
+            o.insert("many".into(), json!(res));
+        }
+
         "fmtparse" => {
             // parse a list of format strings only
             let mut res = Vec::new();
